@@ -26,6 +26,20 @@ CHECKS = {
          "Mul/MulAssign impl, mul_bigint / scalar_mul(_vartime), msm forms x scalar alphabet (0,1,2,r-1,(r+-1)/2,2^k,2^k-1,"
          "all-ones limbs, r, r+1, 2r-1, 5-limb integers) and random scalars; k-fold sums recomputed by TLC with the affine law; "
          "r*P = identity for the alphabet.", "5 C05"),
+ "C09": ("Toy: the table-driven (Sarkar) routine and the constant-time Tonelli-Shanks routine, transcribed generically in "
+         "(two-adicity, window), are checked against the four-case contract on EVERY pair (num, den) of toy fields with "
+         "two-adicity 5..8 and window layouts of decaf377's shape; a table miss is an explicit value. Real: TLC generates the "
+         "inputs by their 2-primary component (every value of every table-digit window of the discrete log, single bits, "
+         "roots of unity of every order 2^k, zeta^k, zero operands; three presentations of each ratio); both builds' routines "
+         "run on them and on random pairs, plus a 16-thread first-use race; every result is checked by TLC against the "
+         "contract predicate; Field::sqrt / legendre against Euler's criterion on three fields.", "5 C09"),
+ "C10": ("Real: every operator/method form of the three fields in both builds (27 binary forms, 15 unary, Sum/Product, "
+         "conditional_select, ct_eq, pow/power, From<int>) on the limb-pattern operand alphabet and on random chained "
+         "operations; every result recomputed by TLC as integer arithmetic mod p (BN number sort).", "5 C10"),
+ "C11": ("Real: serialisers x constructors on canonical values, checked parsers on p-1, p, p+1, 2^k, all-ones and wrong "
+         "lengths, reduction of byte strings of every length 0..200 in both endiannesses, flag (de)serialisation for "
+         "Empty/SW/TE flags incl. mutated top bits, decimal strings, ordering, hashing; all expected values computed by "
+         "TLC from the integer the harness chose before it entered the library.", "5 C11"),
  "C07": ("Toy: the coded Elligator map = elligatorSpec modulo the coset for every r0, both square-root signs, two zetas per "
          "field; sign symmetry; output in 2E; num*den != 0. Real: 0, +-1, +-2..16, zeta, 2^k, random r0 and pairs on both "
          "builds; every output recomputed by TLC from the unoptimised ElligatorSpec.", "5 C07"),
